@@ -41,8 +41,13 @@ META = {
         "children in slots 3, 6, 9 yielding 1, 2, 2 symbolic pairs or one "
         "stub child in any one of the 16 slots yielding 2; local pairs "
         "decoded at a symbolic (chip, core) of the 256x256x18 space.  (4) "
-        "compress_flood_fill_regions on 12 fixed shapes (one chip with 3 "
-        "cores; a level-3 block full for one core and 15/16 for another; "
+        "compress_flood_fill_regions on 15 fixed shapes (one chip with 3 "
+        "cores; single chips in different 16x16 blocks of one 64x64 block "
+        "and in different 4x4 blocks of one 16x16 block, the block visited "
+        "first holding the larger x; 4x4 blocks whose entry with the "
+        "smaller select bits carries core 16 / 17 / both; cores 16 and 17 "
+        "also occur in the sparse, neighbouring-chips and single-chip "
+        "shapes; a level-3 block full for one core and 15/16 for another; "
         "15/16 with the hole in the first / last chip; sparse chips; "
         "neighbouring chips with different core sets; a full level-2 "
         "block plus a second core on 15/16 of it; 15/16 of a level-2 "
@@ -95,7 +100,7 @@ META = {
         "limits) wherever a test point is quantified",
     ],
     "outside_claim": [
-        "the induction itself and target sets other than the 12 shapes of "
+        "the induction itself and target sets other than the 15 shapes of "
         "(4) as far as whole-function behaviour goes",
         "(3): more than 4 cores with a non-empty local selection at one "
         "node; more than 3 children present / 2 pairs per child",
@@ -733,17 +738,42 @@ STRUCTURES = {
     # keep its full mask), another core on all but one level-1 block
     "l0 full": (8, [_rect(0, 0, 256, 256, [4]), _rect(0, 0, 256, 192, [11]),
                     _rect(0, 192, 192, 64, [11])]),
+    # single chips in different 16x16 blocks of ONE 64x64 block, the block
+    # visited first holding the chip with the larger x (the tree's traversal
+    # is out of order there: only the final sort puts it right)
+    "l2 blocks of one l1": (6, [
+        _rect(4, 0, 1, 1, [1]), _rect(0, 16, 1, 1, [1]),
+        _rect(20, 0, 1, 1, [16]), _rect(0, 48, 1, 1, [16]),
+        _rect(28, 16, 1, 1, [2, 17]), _rect(16, 32, 1, 1, [2]),
+        _rect(44, 32, 1, 1, [3]), _rect(40, 48, 1, 1, [3, 16, 17]),
+        _rect(0, 4, 1, 1, [5]), _rect(16, 0, 1, 1, [5])]),
+    # the same one level down: different 4x4 blocks of ONE 16x16 block
+    "l3 blocks of one l2": (4, [
+        _rect(1, 0, 1, 1, [1]), _rect(0, 4, 1, 1, [1]),
+        _rect(3, 8, 1, 1, [16]), _rect(2, 12, 1, 1, [16]),
+        _rect(7, 4, 1, 1, [2, 17]), _rect(4, 8, 1, 1, [2]),
+        _rect(0, 1, 1, 1, [6]), _rect(4, 0, 1, 1, [6])]),
+    # four 4x4 blocks, in each two entries with different chip sets where the
+    # entry with the numerically smaller select bits carries core 17 / 16 /
+    # both (a sort key that gives the core mask fewer than 18 bits lets mask
+    # bits 16, 17 run into select bits 0, 1 = chips (0,0), (1,0) of the block
+    # and misorders exactly these)
+    "cores 16/17 on the smaller entry": (3, [
+        _rect(0, 0, 1, 1, [1, 17]), _rect(1, 0, 1, 1, [2]),
+        _rect(4, 0, 1, 1, [3]), _rect(5, 0, 1, 1, [3, 9, 16]),
+        _rect(0, 4, 1, 1, [4, 16, 17]), _rect(1, 4, 1, 1, [5]),
+        _rect(4, 4, 1, 1, [6]), _rect(5, 4, 1, 1, [6, 10, 16, 17])]),
     # a single chip, several cores (nothing collapses)
     "single chip": (0, [_rect(0, 0, 1, 1, [0, 9, 17])]),
     # sparse: far apart chips inside a 64x64 window, different cores
-    "sparse": (6, [_rect(0, 0, 1, 1, [1]), _rect(63, 63, 1, 1, [1, 2]),
-                   _rect(17, 40, 1, 1, [3]), _rect(16, 40, 1, 1, [3]),
+    "sparse": (6, [_rect(0, 0, 1, 1, [1, 16]), _rect(63, 63, 1, 1, [1, 2]),
+                   _rect(17, 40, 1, 1, [3, 17]), _rect(16, 40, 1, 1, [3]),
                    _rect(5, 6, 1, 1, [17])]),
     # neighbouring chips with different core sets, in one level-3 block and
     # across a level-3 boundary
     "neighbours different cores": (3, [
         _rect(0, 0, 4, 4, [1]), _rect(0, 0, 2, 4, [2]), _rect(2, 0, 2, 4, [3]),
-        _rect(3, 3, 2, 2, [4]), _rect(4, 0, 1, 1, [1, 2])]),
+        _rect(3, 3, 2, 2, [4, 16]), _rect(4, 0, 1, 1, [1, 2, 17])]),
     # all 16 level-3 blocks of one level-2 block (collapses twice), plus one
     # more core on 15 of the 16 blocks
     "l2 full": (4, [_rect(0, 0, 16, 16, [1]), _rect(0, 0, 16, 12, [2]),
@@ -904,7 +934,11 @@ def units(tier, seed):
              ("l0 full", 0, 0),
              ("l3 15/16 corner holes", 1, 0),
              ("l3 15/16 corner holes", 0, 1),
-             ("l2 15/16", 0, 1)]
+             ("l2 15/16", 0, 1),
+             ("l2 blocks of one l1", 1, 0), ("l2 blocks of one l1", 0, 1),
+             ("l3 blocks of one l2", 1, 0), ("l3 blocks of one l2", 0, 2),
+             ("cores 16/17 on the smaller entry", 2, 0),
+             ("cores 16/17 on the smaller entry", 0, 1)]
     if thorough:
         whole = [("single chip", 5, 0),
                  ("l3 full core1, 15/16 core2", 4, 0),
@@ -924,7 +958,14 @@ def units(tier, seed):
                  ("l3 15/16 corner holes", 3, 0),
                  ("l3 15/16 corner holes", 3, 1),
                  ("l3 15/16 corner holes", 3, 2),
-                 ("l2 15/16", 2, 0), ("l2 15/16", 1, 1), ("l2 15/16", 1, 2)]
+                 ("l2 15/16", 2, 0), ("l2 15/16", 1, 1), ("l2 15/16", 1, 2),
+                 ("l2 blocks of one l1", 2, 0), ("l2 blocks of one l1", 2, 1),
+                 ("l2 blocks of one l1", 2, 2),
+                 ("l3 blocks of one l2", 3, 0), ("l3 blocks of one l2", 2, 1),
+                 ("l3 blocks of one l2", 2, 2),
+                 ("cores 16/17 on the smaller entry", 4, 0),
+                 ("cores 16/17 on the smaller entry", 3, 1),
+                 ("cores 16/17 on the smaller entry", 3, 2)]
     for (st, fb, order) in whole:
         us.append(Unit("whole %s free=%d order=%d" % (st, fb, order), h_whole,
                        dict(structure=st, free_bits=fb, order=order),
